@@ -214,7 +214,8 @@ def step(ctx, ns, m, spec_op, layer="L1"):
     else:  # must raise and leave state unchanged
         if kind == "ok":
             return ns2, (f"{layer}/{name}/undefined-op-accepted/{cl}", f"op={short(spec_op)} returned {short(val)} but is not defined on a nested dict")
-        if exp[1] is KeyError and not isinstance(val, KeyError):
+        if exp[1] is KeyError and not isinstance(val, KeyError) and not (name == "delattr" and isinstance(val, AttributeError)):
+            # (deleting a missing *attribute* raises AttributeError by Python's own convention)
             return ns2, (f"{layer}/{name}/wrong-exception/{type(val).__name__}/{cl}", f"op={short(spec_op)} raised {type(val).__name__}: {val}; KeyError documented")
         if exp[1] is None:
             ctx.count(f"ev.{name}.raise.{type(val).__name__}")
